@@ -176,9 +176,56 @@ class AbsInt:
                     return UNKNOWN
                 return r if isinstance(op, ast.In) else (not r)
             return UNKNOWN
+        if isinstance(e, (ast.ListComp, ast.GeneratorExp, ast.SetComp)):
+            items = self._comp(e, env)
+            if items is UNKNOWN:
+                return UNKNOWN
+            if isinstance(e, ast.SetComp):
+                try:
+                    return set(items)
+                except TypeError:
+                    return UNKNOWN
+            return items
+        if isinstance(e, ast.List):
+            return [self.ev(x, env) for x in e.elts]
         if isinstance(e, ast.Call):
             return self.call(e, env)
         return UNKNOWN
+
+    def _comp(self, e: ast.AST, env: dict) -> Any:
+        """The elements of a comprehension over concrete iterables (a list; UNKNOWN if an iterable, a filter or a target shape is not decided)."""
+        out: list = []
+
+        def go(k: int, env_: dict) -> bool:
+            if k == len(e.generators):  # type: ignore[attr-defined]
+                out.append(self.ev(e.elt, env_))  # type: ignore[attr-defined]
+                return True
+            gen = e.generators[k]  # type: ignore[attr-defined]
+            it = self.ev(gen.iter, env_)
+            if gen.is_async or not isinstance(it, (list, tuple)) or len(it) > 16:
+                return False
+            for x in it:
+                e2 = dict(env_)
+                if isinstance(gen.target, ast.Name):
+                    e2[gen.target.id] = x
+                elif isinstance(gen.target, ast.Tuple) and isinstance(x, tuple) and len(x) == len(gen.target.elts) and all(isinstance(t, ast.Name) for t in gen.target.elts):
+                    for t, v in zip(gen.target.elts, x):
+                        e2[t.id] = v  # type: ignore[attr-defined]
+                else:
+                    return False
+                keep = True
+                for cond in gen.ifs:
+                    t = self.truth(self.ev(cond, e2))
+                    if t is None:
+                        return False
+                    if not t:
+                        keep = False
+                        break
+                if keep and not go(k + 1, e2):
+                    return False
+            return True
+
+        return out if go(0, env) else UNKNOWN
 
     def _eq(self, a: Any, b: Any) -> Any:
         if isinstance(a, Sym) or isinstance(b, Sym):
@@ -224,6 +271,15 @@ class AbsInt:
                     return recv.get(args[0], args[1] if len(args) == 2 else None)
                 except TypeError:
                     return UNKNOWN
+        if name in ('any', 'all') and len(args) == 1 and not c.keywords and isinstance(args[0], (list, tuple)):
+            ts = [self.truth(x) for x in args[0]]
+            if name == 'any':
+                return True if any(t is True for t in ts) else (UNKNOWN if any(t is None for t in ts) else False)
+            return False if any(t is False for t in ts) else (UNKNOWN if any(t is None for t in ts) else True)
+        if name in ('list', 'tuple') and len(args) == 1 and not c.keywords and isinstance(args[0], (list, tuple)):
+            return list(args[0]) if name == 'list' else tuple(args[0])
+        if name == 'len' and len(args) == 1 and not c.keywords and isinstance(args[0], (list, tuple, str, set)) and all(x is not UNKNOWN for x in (args[0] if not isinstance(args[0], str) else ())):
+            return len(args[0])
         if name == 'getattr' and 2 <= len(args) <= 3 and isinstance(args[1], str) and args[0] is not UNKNOWN:
             if isinstance(args[0], Rec):
                 if args[1] in args[0]:
